@@ -484,6 +484,178 @@ theorem modelTail_cons (E : Env) (debug : Bool) (ins : Nat → PassIn) (t : Toke
   | err => rfl
   | panic q => rfl
 
+/-! ### per-batch inputs that are taken from the environment in EVERY batch
+
+`passAt` falls back to the default `PassIn` (clock `(0, 0)`, no fault injection) for the batches after one whose
+`batchSpec` does not return — batches the model never reaches.  `passEnv` is the same function with a fallback that is
+itself an environment reading; the model cannot tell the two apart (`modelTail_passEnv`), and every `passEnv … i` is a
+reading of the socket's clock and a suffix of the pending fault-injection decisions (`passEnv_prov`). -/
+
+def passEnv (E : Env) (debug : Bool) : Nat → Server → Gen.Sock → List Grease → List Grease → PassIn
+  | 0, s, sock, gI, gC => pass0 E s sock gI gC
+  | i + 1, s, sock, gI, gC =>
+    match batchSpec E debug s sock gI gC with
+    | .ok y => passEnv E debug i y.1 (sockAfter s sock y.2.1) (gI.drop y.1.ietf.requests.length)
+        (gC.drop y.1.classic.requests.length)
+    | _ => pass0 E s sock gI gC
+
+/-- provenance of the inputs `passEnv`: no in-call arrivals, clock readings of the socket's clock, suffixes of the
+    pending fault-injection decisions -/
+theorem passEnv_prov (E : Env) (debug : Bool) : ∀ (i : Nat) (s : Server) (sock : Gen.Sock) (gI gC : List Grease),
+    (passEnv E debug i s sock gI gC).arrivals = [] ∧
+    (∃ k, (passEnv E debug i s sock gI gC).nowIetf = ((sock.clock k).secs, (sock.clock k).nanos)) ∧
+    (∃ k, (passEnv E debug i s sock gI gC).nowClassic = ((sock.clock k).secs, (sock.clock k).nanos)) ∧
+    (∃ n, (passEnv E debug i s sock gI gC).greaseIetf = gI.drop n) ∧
+    (∃ n, (passEnv E debug i s sock gI gC).greaseClassic = gC.drop n) := by
+  have h0 : ∀ (s : Server) (sock : Gen.Sock) (gI gC : List Grease),
+      (pass0 E s sock gI gC).arrivals = [] ∧
+      (∃ k, (pass0 E s sock gI gC).nowIetf = ((sock.clock k).secs, (sock.clock k).nanos)) ∧
+      (∃ k, (pass0 E s sock gI gC).nowClassic = ((sock.clock k).secs, (sock.clock k).nanos)) ∧
+      (∃ n, (pass0 E s sock gI gC).greaseIetf = gI.drop n) ∧
+      (∃ n, (pass0 E s sock gI gC).greaseClassic = gC.drop n) :=
+    fun s sock gI gC => ⟨rfl, ⟨_, rfl⟩, ⟨_, rfl⟩, ⟨0, rfl⟩, ⟨0, rfl⟩⟩
+  intro i
+  induction i with
+  | zero => exact h0
+  | succ i ih =>
+    intro s sock gI gC
+    unfold passEnv
+    split
+    · rename_i y _
+      obtain ⟨a, ⟨k1, b⟩, ⟨k2, c⟩, ⟨n1, d⟩, ⟨n2, e⟩⟩ := ih y.1 (sockAfter s sock y.2.1)
+        (gI.drop y.1.ietf.requests.length) (gC.drop y.1.classic.requests.length)
+      refine ⟨a, ⟨k1, b⟩, ⟨k2, c⟩, ⟨y.1.ietf.requests.length + n1, ?_⟩, ⟨y.1.classic.requests.length + n2, ?_⟩⟩
+      · rw [d, List.drop_drop]
+      · rw [e, List.drop_drop]
+    · exact h0 s sock gI gC
+
+/-- the model's `serviceSocket` reads the per-batch inputs only up to the first batch that does not return: it cannot
+    tell `passEnv` from `passAt` -/
+theorem svc_passEnv (E : Env) (debug : Bool) : ∀ (M : Nat) (s : Server) (sock : Gen.Sock) (gI gC : List Grease)
+    (st : Loop), st.srv = s → st.sockQ = toDatagrams sock.inq →
+    serviceSocket E debug M st (fun i => passEnv E debug i s sock gI gC) =
+      serviceSocket E debug M st (fun i => passAt E debug i s sock gI gC) := by
+  intro M
+  induction M with
+  | zero =>
+    intro s sock gI gC st _ _
+    simp only [serviceSocket]
+  | succ M ih =>
+    intro s sock gI gC st hs hq
+    unfold serviceSocket
+    simp only []
+    have hp := pass_eq E debug s sock gI gC st hs hq
+    have h0 : passAt E debug 0 s sock gI gC = pass0 E s sock gI gC := rfl
+    have h0' : passEnv E debug 0 s sock gI gC = pass0 E s sock gI gC := rfl
+    rw [h0, h0', hp]
+    cases hb : batchSpec E debug s sock gI gC with
+    | ok y =>
+      obtain ⟨s', sent, ev⟩ := y
+      simp only [Res.bind_ok]
+      split
+      · rfl
+      · have hins : (fun i => passAt E debug (i + 1) s sock gI gC) =
+            fun i => passAt E debug i s' (sockAfter s sock sent) (gI.drop s'.ietf.requests.length)
+              (gC.drop s'.classic.requests.length) := by
+          funext i
+          simp only [passAt, hb]
+        have hins' : (fun i => passEnv E debug (i + 1) s sock gI gC) =
+            fun i => passEnv E debug i s' (sockAfter s sock sent) (gI.drop s'.ietf.requests.length)
+              (gC.drop s'.classic.requests.length) := by
+          funext i
+          simp only [passEnv, hb]
+        rw [hins, hins']
+        rw [ih s' (sockAfter s sock sent) (gI.drop s'.ietf.requests.length) (gC.drop s'.classic.requests.length)
+          { st with srv := s', sockQ := (st.sockQ ++ (pass0 E s sock gI gC).arrivals).drop st.srv.batchSize,
+                    sockEdge := st.sockEdge || !(pass0 E s sock gI gC).arrivals.isEmpty,
+                    recd := st.recd.recordAll ev } rfl
+          (by subst hs; simp only [pass0_arrivals, List.append_nil, hq, sockAfter, toDatagrams_drop])]
+    | err => rfl
+    | panic site => rfl
+
+theorem sendClientStats_frame (st : Loop) :
+    (sendClientStats st).srv = st.srv ∧ (sendClientStats st).sockQ = st.sockQ := by
+  unfold sendClientStats
+  simp only []
+  split <;> exact ⟨rfl, rfl⟩
+
+theorem bind_congr_ok {α β : Type} (r : Res α) (f g : α → Res β) (h : ∀ a, r = .ok a → f a = g a) :
+    r.bind f = r.bind g := by
+  cases r with
+  | ok a => exact h a rfl
+  | err => rfl
+  | panic q => rfl
+
+theorem hc_frame (st : Loop) (z : Loop × Out) (hh : handleHealthCheck st = .ok z) :
+    z.1.srv = st.srv ∧ z.1.sockQ = st.sockQ := by
+  unfold handleHealthCheck at hh
+  split at hh
+  · cases hh
+  · cases hh; exact ⟨rfl, rfl⟩
+
+/-- the whole call: as long as the socket has not been serviced the loop state still has the server and receive queue
+    the inputs were computed from, and (each token at most once) the socket is serviced at most once -/
+theorem modelTail_passEnv (E : Env) (debug : Bool) (s : Server) (sock : Gen.Sock) (gI gC : List Grease) :
+    ∀ (toks : List Token), toks.Nodup → ∀ (st : Loop) (sv : Bool),
+    (sv = false → st.srv = s ∧ st.sockQ = toDatagrams sock.inq) → (sv = true → Token.message ∉ toks) →
+    modelTail E debug (fun i => passEnv E debug i s sock gI gC) toks st sv =
+      modelTail E debug (fun i => passAt E debug i s sock gI gC) toks st sv := by
+  intro toks
+  induction toks with
+  | nil =>
+    intro _ st sv hst _
+    rw [modelTail_nil, modelTail_nil]
+    cases sv with
+    | true => simp only [Bool.not_true, Bool.and_false, Bool.false_eq_true, if_false]
+    | false => rw [svc_passEnv E debug 16 s sock gI gC st (hst rfl).1 (hst rfl).2]
+  | cons t ts ih =>
+    intro hnd st sv hst hsv
+    obtain ⟨hnt, hnd'⟩ := List.nodup_cons.mp hnd
+    rw [modelTail_cons, modelTail_cons]
+    have hstep : stepT E debug (fun i => passEnv E debug i s sock gI gC) t st sv =
+        stepT E debug (fun i => passAt E debug i s sock gI gC) t st sv := by
+      cases t with
+      | message =>
+        have hsvf : sv = false := by
+          cases sv with
+          | false => rfl
+          | true => exact absurd (List.mem_cons_self ..) (hsv rfl)
+        simp only [stepT, MAX_BATCHES_PER_CALL]
+        rw [svc_passEnv E debug 16 s sock gI gC st (hst hsvf).1 (hst hsvf).2]
+      | healthCheck => simp only [stepT]
+      | statusUpdate => simp only [stepT]
+    rw [hstep]
+    apply bind_congr_ok
+    intro y hy
+    have hrest : (y.2.2 = false → y.1.srv = s ∧ y.1.sockQ = toDatagrams sock.inq) ∧
+        (y.2.2 = true → Token.message ∉ ts) := by
+      cases t with
+      | message =>
+        simp only [stepT] at hy
+        cases hsvc : serviceSocket E debug MAX_BATCHES_PER_CALL st (fun i => passAt E debug i s sock gI gC) with
+        | ok z =>
+          rw [hsvc] at hy
+          cases hy
+          exact ⟨fun h => (by cases h), fun _ => hnt⟩
+        | err => rw [hsvc] at hy; cases hy
+        | panic q => rw [hsvc] at hy; cases hy
+      | healthCheck =>
+        simp only [stepT] at hy
+        cases hh : handleHealthCheck st with
+        | ok z =>
+          rw [hh] at hy
+          cases hy
+          have hz := hc_frame st z hh
+          exact ⟨fun h => (by rw [hz.1, hz.2]; exact hst h), fun h hm => hsv h (List.mem_cons_of_mem _ hm)⟩
+        | err => rw [hh] at hy; cases hy
+        | panic q => rw [hh] at hy; cases hy
+      | statusUpdate =>
+        simp only [stepT] at hy
+        cases hy
+        have hz := sendClientStats_frame st
+        exact ⟨fun h => (by rw [hz.1, hz.2]; exact hst h), fun h hm => hsv h (List.mem_cons_of_mem _ hm)⟩
+    rw [ih hnd' y.1 y.2.2 hrest.1 hrest.2]
+
 end PEAux
 end Bridge
 end Rough
